@@ -569,8 +569,11 @@ func (e *env[E, FE]) Tassa(t T, c *pcase) {
 	A, B := deals[3], dealOne(drawnBig(q, c.seed, "secretB"), "tassa/B")
 	k := scalarFor(q, c.seed)
 	sum, scaled := make([]*tassa.Share[FE], c.p.N), make([]*tassa.Share[FE], c.p.N)
+	zeroed, cancelled := make([]*tassa.Share[FE], c.p.N), make([]*tassa.Share[FE], c.p.N)
+	qm1 := lx.FE(f, new(big.Int).Sub(q, big.NewInt(1)))
 	for h := range c.ids {
 		sum[h], scaled[h] = A.shares[h].Op(B.shares[h]), A.shares[h].ScalarOp(lx.FE(f, k))
+		zeroed[h], cancelled[h] = A.shares[h].ScalarOp(f.Zero()), A.shares[h].Op(A.shares[h].ScalarOp(qm1))
 	}
 	for idx, s := range c.subsets {
 		want := c.p.Qualified(s)
@@ -608,12 +611,15 @@ func (e *env[E, FE]) Tassa(t T, c *pcase) {
 			if err1 != nil || lx.Big(s1.Value()).Cmp(sumMod(q, A.s, B.s)) != 0 {
 				t.Fatalf("%v over %s: tassa sum of shares over %v does not reconstruct to a+b (%v)", c, e.name, ids, err1)
 			}
-			if k.Sign() == 0 {
-				// known finding: 0·shares is the sharing of 0 by the zero polynomial, whose degree is
-				// below T_m-1, and tassa.Reconstruct refuses every polynomial of lower degree
-				vlib.Excluded(knownTassaDegree)
-			} else if err2 != nil || lx.Big(s2.Value()).Cmp(mulMod(q, A.s, k)) != 0 {
+			if err2 != nil || lx.Big(s2.Value()).Cmp(mulMod(q, A.s, k)) != 0 {
 				t.Fatalf("%v over %s: tassa %v·shares over %v reconstruct to %v (err %v)", c, e.name, k, ids, s2, err2)
+			}
+			// combinations whose dealer polynomial loses its top coefficient (fixed finding
+			// C02-tassa-refuses-lower-degree): 0·shares and a + (q-1)·a are sharings of 0
+			s3, err3 := scheme.Reconstruct(pick(zeroed, members)...)
+			s4, err4 := scheme.Reconstruct(pick(cancelled, members)...)
+			if err3 != nil || err4 != nil || lx.Big(s3.Value()).Sign() != 0 || lx.Big(s4.Value()).Sign() != 0 {
+				t.Fatalf("%v over %s: tassa 0·shares / a+(q-1)·a over %v reconstruct to %v / %v (errors %v / %v), want 0", c, e.name, ids, s3, s4, err3, err4)
 			}
 			got, err := c.additiveSum(t, q, s, members, func(h int, quorum *unanimity.Unanimity) (*big.Int, error) {
 				a, err := scheme.ConvertShareToAdditive(d.shares[h], quorum)
@@ -648,35 +654,6 @@ func (e *env[E, FE]) Tassa(t T, c *pcase) {
 	if sec, err := scheme.Reconstruct(append(append([]*tassa.Share[FE]{}, all...), all[0])...); err == nil {
 		t.Fatalf("%v: tassa Reconstruct with a repeated share returns %v", c, lx.Big(sec.Value()))
 	}
-}
-
-// knownTassaDegree: tassa.Reconstruct insists that the interpolated polynomial has degree exactly
-// T_m-1; shares scaled by 0 (or any combination whose top coefficient cancels) are refused.
-const knownTassaDegree = "C02-tassa-refuses-lower-degree"
-
-// TassaZeroScaleProbe deals, multiplies every share by 0 and reconstructs from all shareholders;
-// it returns the error (nil if the library returns the secret 0).
-func (e *env[E, FE]) TassaZeroScaleProbe(t T, c *pcase) (refused bool) {
-	t.Helper()
-	hac := c.ac.(*hierarchical.HierarchicalConjunctiveThreshold)
-	scheme, err := tassa.NewScheme(hac, e.f)
-	if err != nil {
-		t.Fatalf("%v: tassa.NewScheme: %v", c, err)
-	}
-	out, err := scheme.Deal(tassa.NewSecret(e.f.One()), vlib.NewPRNG(c.seed, "tassa/known"))
-	if err != nil {
-		t.Fatalf("%v: tassa Deal: %v", c, err)
-	}
-	var scaled []*tassa.Share[FE]
-	for _, id := range c.ids {
-		sh, _ := out.Shares().Get(sharing.ID(id))
-		scaled = append(scaled, sh.ScalarOp(e.f.Zero()))
-	}
-	sec, err := scheme.Reconstruct(scaled...)
-	if err == nil && !sec.Value().IsZero() {
-		t.Fatalf("%v: 0·shares reconstruct to %v", c, lx.Big(sec.Value()))
-	}
-	return err != nil
 }
 
 // TassaAdmission compares the library's accept/refuse decision with the verdict.
